@@ -27,6 +27,7 @@ func init() {
 		},
 		Real:       []string{"vm (decoder, runner, disassembler)", "engine", "state", "cache", "render", "resource"},
 		Stub:       []string{"store handing back the damaged record (application table)", "independent decoder refcodec (oracle)", "client", "external functions"},
+		HangSeconds: 120, // single runs of this check take seconds, more on a loaded machine
 		FaultKinds: []string{"record_corrupt:truncate", "record_corrupt:replace", "record_corrupt:append"},
 		Post: func(cov map[string]interface{}) {
 			cov["exhaustive_note"] = "per program the damage catalogue is enumerated completely; programs are sampled"
